@@ -32,7 +32,8 @@ LEVEL_TEXT = ("machine-checked Lean 4 theorems (induction over unbounded histori
               "through len / iteration / indexing with decoded row contents)")
 LEVEL_NOTE = ("all C11 theorems are fully proved (no _partial): C11_index_in_bounds and C11_index_monotone (for EVERY option "
               "set), C11_counters_any_options (counters / index length / event counter for every option set), "
-              "C11_accepted_count, C11_round_trip, C11_reject_isolated, C11_reject_last, C11_empty_file_iterates_empty, "
+              "C11_round_trip_any_options (round trip for EVERY option set for histories without reopen; the file shows all "
+              "accepted events or, while no dataset exists, none), C11_accepted_count, C11_round_trip, C11_reject_isolated, C11_reject_last, C11_empty_file_iterates_empty, "
               "C11_orphans_unreachable (these under option sets that record particles), C11_keys_stable, "
               "C11_all_gated_untriggered_witness; C11_steps_match_source, C11_writer_ops_match_source, "
               "C11_add_shape_matches_source, C11_records_is_gate tie the model's step order, gating keys, micro-operation "
@@ -47,7 +48,13 @@ LEVEL_NOTE = ("all C11 theorems are fully proved (no _partial): C11_index_in_bou
               "particles unconditionally: otherwise EventIterator cannot open the file (witness theorem) - such files are "
               "still compared with the model exactly (acceptance of every call, counters, raw index); column names of one "
               "_write_trigger call are assumed distinct (no dict key named antenna_<i>); h5py datasets behave as resizable "
-              "arrays with fill values")
+              "arrays with fill values.  Hypothesis audit: `AlwaysParticles` is the property's own restriction (\"option sets "
+              "that record particles\"); without it and WITH an append session a first session that recorded nothing "
+              "(everything gated, nothing triggered) is forgotten by the writer (`counters['indices']` is recovered from "
+              "the empty index) - excluded by the property text, compared exactly with the model all the same; raise "
+              "points other than the 11 injected ones are covered by the cut-point theorems and one probe (add() before "
+              "set_detector); per-waveform trigger lists longer than the number of waveforms are generated (extra "
+              "values ignored)")
 TECHNIQUE = "Lean 4 model of the writer/reader bookkeeping + exact differential run on real HDF5 files"
 EXTRACTORS = ["h5_steps"]
 ASSUMPTIONS = [
@@ -236,6 +243,12 @@ def oracle_file(spec, d, name="s.h5"):
                             why = H.diff_events([exp[i]], [ev])
                             if why:
                                 return ("f[%d] differs from what was added" % key, why, None)
+        # nested / interleaved passes over one open reader, partially consumed iterators
+        if len(exp) <= 5:
+            for sr in (None, 1, 2):
+                bad = H.oracle_passes(fn, exp, sr)
+                if bad:
+                    return bad
         return None
     finally:
         if os.path.exists(fn):
@@ -400,6 +413,26 @@ def guard_probes(d):
         must_raise("add() on a writer that is not open", lambda: w.add(None), (OSError,))
     finally:
         f.close()
+    # a raise point outside the 11 injected ones: add() before set_detector (rejected inside the ray writer
+    # after particles and triggers were written), then set_detector and a good add
+    fn2 = os.path.join(d, "nodet.h5")
+    w2 = File(fn2, "w", write_rays=True, write_waveforms=True, require_trigger=False)
+    w2.open()
+    try:
+        ants = H.make_detector(spec)
+        ev0, kw0, _ = H.build_call(spec, 0, spec["ops"][0], ants)
+        must_raise("add() before set_detector", lambda: w2.add(ev0, **kw0), (ValueError,))
+        w2.set_detector(ants)
+        ev1, kw1, rec1 = H.build_call(spec, 1, spec["ops"][1], ants)
+        w2.add(ev1, **kw1)
+    finally:
+        w2.close()
+    with H.Reader(fn2, 1) as r2:
+        err, evs = r2.iterate()
+        if err != "stop" or len(r2) != 1 or len(evs) != 1 or evs[0]["particles"] != rec1["particles"] \
+                or evs[0]["waveforms"] != rec1["waveforms"] or evs[0]["rays"] != rec1["rays"]:
+            bad.append(("file after an add() rejected for lack of a detector", (err, len(r2)), "exactly the later event"))
+    os.remove(fn2)
     must_raise("len() of a closed reader", lambda: len(f), (OSError,))
     must_raise("f[0] on a closed reader", lambda: f[0], (OSError,))
     must_raise("iter() of a closed reader", lambda: iter(f), (OSError,))
